@@ -58,6 +58,9 @@ func (p *Proof) IsValid(public Public) bool {
 	if p == nil {
 		return false
 	}
+	if p.Commitment == nil || p.S == nil || p.T == nil || p.Z1 == nil || p.Z2 == nil {
+		return false
+	}
 	if p.Gamma == nil || p.Gamma.IsZero() {
 		return false
 	}
